@@ -328,3 +328,6 @@ func verifHTTPAllowStall(on bool) {}
 
 // verifPreemptions: engine only (bounded-preemption exploration of interleavings); natively the Go scheduler decides.
 func verifPreemptions(n int) {}
+
+// verifTokenStream: engine only (token-level model of the toki lexer); natively the harness renders the tokens as text.
+func verifTokenStream(kinds []uint32, vals [][]byte) {}
